@@ -62,6 +62,12 @@ def injections(rng, toks, defs, tier):
     out.append(("anonymous-component-in-function", None, {"main.circom": base + "function bada(a) { var x = T0()(a); return x; }\n"}, ["main.circom"]))
     out.append(("anonymous-component-wrong-arity", None, {"main.circom": base + "template BadA() { signal input i; signal output o; o <== T0(1, 2, 3, 4, 5, 6, 7)(i, i, i, i, i, i, i, i, i); }\n"}, ["main.circom"]))
     out.append(("anonymous-component-unknown-template", None, {"main.circom": base + "template BadB() { signal input i; signal output o; o <== NoSuchTemplate()(i); }\n"}, ["main.circom"]))
+    # a main component that cannot be analysed: an anonymous component or a tuple, as the instantiation or inside its arguments (the
+    # instantiation is analysed since 1121aa8; such a main component is skipped, which must not be silent)
+    for nm, m in (("anonymous-component-as-main", "T0()(1)"), ("anonymous-component-in-main-arguments", "T0(T0()(1))"),
+                  ("tuple-as-main", "(1, 2)"), ("tuple-in-main-arguments", "T0((1, 2))"), ("anonymous-component-in-main-index", "T0([1, 2][T0()(0)])")):
+        no_main = "\n".join(l for l in base_plain.split("\n") if "component main" not in l) + "\n"
+        out.append((nm, None, {"main.circom": no_main + "component main = %s;\n" % m}, ["main.circom"]))
     out.append(("read-before-assignment", None, {"main.circom": base + "function badv(a) { var x; return a + x; }\n"}, ["main.circom"]))
     second = "pragma circom 2.0.0;\ntemplate Other() { signal input a; signal output b; b <== a; }\ncomponent main = Other();\n"
     out.append(("several-main-components", None, {"main.circom": base_plain, "second.circom": second}, ["main.circom", "second.circom"]))
